@@ -29,6 +29,9 @@ import (
 // read from its rootfs.  VERIF_REPO_ROOT only serves the mutation experiments, which run on
 // a private copy of the tree.
 var RepoRoot = func() string {
+	if v := os.Getenv("VERIF_REPO"); v != "" {
+		return v
+	}
 	if v := os.Getenv("VERIF_REPO_ROOT"); v != "" {
 		return v
 	}
